@@ -249,9 +249,7 @@ func TestCheck(t *testing.T) {
 			}
 		})
 	}
-	r.Note("exhaustive", "true")
-	r.Count("exhaustive_parts", 1)
-	r.Note("exhaustive_bound", fmt.Sprintf("all chains of <= %d wrappers (of %d kinds) around each of the leaf kinds", maxDepth, len(ws)))
+	r.Note("exhaustive_part", fmt.Sprintf("all chains of <= %d wrappers (of %d kinds) around each of the leaf kinds", maxDepth, len(ws)))
 
 	// (2) deeper chains by PRNG
 	nDeep := r.Pick(2000, 200000)
